@@ -110,9 +110,9 @@ theorem psteps_of_step (s s' : St) (e : Ev) (hs : step s e = some s') : PSteps s
     all_goals (try simp at hs)
     all_goals (first | (subst hs; exact .refl _) | (obtain ⟨_, hs⟩ := hs; subst hs; exact .refl _))
 
-theorem pinv_of_run {k : Kind} {cap : Nat} {es : List Ev} {s : St} (h : (sys k cap).run es = some s) :
-    PInv s.p :=
-  Sys.inv_of_run (sys k cap) (fun s => PInv s.p) Signal.pinv_init
+theorem pinv_of_run {spin : Bool} {k : Kind} {cap : Nat} {es : List Ev} {s : St}
+    (h : (sysM spin k cap).run es = some s) : PInv s.p :=
+  Sys.inv_of_run (sysM spin k cap) (fun s => PInv s.p) Signal.pinv_init
     (fun s e s' hi hs => (psteps_of_step s s' e hs).pinv hi) h
 
 /-! ### shape of an embedded protocol step: only the signal and the actor's pc change -/
